@@ -157,8 +157,12 @@ class Repo:
         self.purity = purity.Purity(trees)
         paths.PURITY = self.purity
         self.renamed_functions: dict[str, str] = {}
+        self.erased: list[str] = []
         if os.environ.get("HSA_NO_ALIGN") != "1":
             paths.MUTABLE_ATTRS = mutable
+            from . import erase
+
+            self.erased = erase.erase_new_namedtuples(trees, align.reference_module_names)
             for t in trees.values():
                 align.strip_annotations(t)
             self.renamed_functions = align.restore_function_names(trees)
